@@ -432,7 +432,8 @@ def check_cli_load(case, ctx: Ctx):
 def tabix_cases(draw):
     bt, recs = draw(record_sets(max_records=12, allow_bad=False, allow_unlisted=True))
     return {"part": "tabix", "bt": bt, "records": recs, "zero_based": draw(st.booleans()),
-            "n_chunks": draw(st.sampled_from([1, 2, 3])), "bad_pos2": draw(st.sampled_from([None] * 5 + [1, 7]))}
+            "n_chunks": draw(st.sampled_from([1, 2, 3])), "bad_pos2": draw(st.sampled_from([None] * 5 + [1, 7])),
+            "via": draw(st.sampled_from(["api", "cli", "cli-p2"]))}
 
 
 def check_tabix(case, ctx: Ctx):
@@ -480,8 +481,17 @@ def check_tabix(case, ctx: Ctx):
         out = os.path.join(d, "out.cool")
 
         def go():
-            agg = TabixAggregator(gz, cs, bins, n_chunks=case["n_chunks"], is_one_based=not case["zero_based"], C2=2, P2=3)
-            cooler.create_cooler(out, bins, agg, ordered=True)
+            if case.get("via", "api") == "api":
+                agg = TabixAggregator(gz, cs, bins, n_chunks=case["n_chunks"], is_one_based=not case["zero_based"], C2=2, P2=3)
+                cooler.create_cooler(out, bins, agg, ordered=True)
+            else:
+                args = ["cload", "tabix", _write_bins(d, bt, "bed"), gz, out, "-c2", "3", "-p2", "4", "-s", str(case["n_chunks"]),
+                        "-p", "2" if case["via"] == "cli-p2" else "1"]
+                if case["zero_based"]:
+                    args.append("-0")
+                rc, _, exc = run_cli(args)
+                if rc != 0 or exc is not None:
+                    raise RuntimeError(f"cooler cload tabix failed: exit {rc} {exc!r}")
 
         if bad is not None:
             try:
@@ -504,7 +514,7 @@ def check_tabix(case, ctx: Ctx):
                                      f"edges {dict(zip(bt['names'], bt['edges']))} rows {rows}")
     finally:
         ctx.clean(d)
-    ctx.record(case, len(rows) >= 2, ["tabix", "zero-based" if case["zero_based"] else "one-based", f"n_chunks={case['n_chunks']}"])
+    ctx.record(case, len(rows) >= 2, ["tabix", "zero-based" if case["zero_based"] else "one-based", f"n_chunks={case['n_chunks']}", "tabix-via=" + case.get("via", "api")])
 
 
 CHECKS = {"records": check_records, "pixels": check_pixels, "cli_pairs": check_cli_pairs, "cli_load": check_cli_load,
